@@ -158,6 +158,20 @@ structure HState where
 def assignFileLine (res : Bytes Ã— Option Bytes) (time : Bytes) : Bytes Ã— Bytes :=
   (res.1, match res.2 with | some t => t | none => time)
 
+/-- the look-ahead of the header scan in a context diff: skip lines of the old half, read the new range -/
+def ctxLookahead : Nat â†’ Parser â†’ Hunk â†’ Hunk
+  | 0, _, h => h
+  | fuel + 1, par, h =>
+    match par.getLine with
+    | (none, _) => h
+    | (some l, par') =>
+      let a := l.content
+      if startsWith a "--- " && endsWith a " ----" then
+        let (ok, s, _) := parseContextRange (-1) (-1) (ctxRangeText a)
+        if ok then { h with new := { h.new with start := s } } else h
+      else if !(startsWith a "- ") && !(startsWith a "  ") && !(startsWith a "! ") && !(startsWith a "\\") then h
+      else ctxLookahead fuel par' h
+
 /-- one iteration of the `while (get_line(line))` loop of `parse_patch_header`; `none` = loop left by `break` -/
 def headerStep (st : HState) (line : Bytes) (strip : Int) : Except Exn (HState Ã— Bool) :=
   -- returns (state, continueLoop)
@@ -233,7 +247,9 @@ def headerStep (st : HState) (line : Bytes) (strip : Int) : Except Exn (HState Ã
               let (ok, s, _) := parseContextRange (-1) (-1) (ctxRangeText line)
               if ok then { st.hunk with old := { st.hunk.old with start := s } } else st.hunk
             else st.hunk
-          .ok ({ st with patch := { p with format := .context }, hunk := hunk' }, false)
+          -- look ahead past the old half for the range of the new file (feeds the Delete inference)
+          let hunk'' := ctxLookahead (st.par.s.rest.length + 1) st.par hunk'
+          .ok ({ st with patch := { p with format := .context }, hunk := hunk'' }, false)
         else if startsWith line "***************" then
           .ok ({ st with thisLooks := .context, ltfh := st.lines }, true)
         else .ok (st, true)
